@@ -196,12 +196,19 @@ def node_level(P, R, trav, dims):
             total += 1
             q, b = rows_for(combo)
             hooks, _ = make_hooks(P, trav, b)
-            env = {'self': OPQ, 'query_bounds': q, 'n': n, 'next_node': OPQ, covered_name: OPQ, maybe_name: OPQ, 'nodes': OPQ}
+            env = {'self': OPQ}
             qp = [p for p in trav.params if p != 'self']
             if qp:
                 env[qp[0]] = q
-            # bind n if the function computes it from len(query)
+            prelude = []
+            for st in trav.node.body:
+                if st is loop:
+                    break
+                prelude.append(st)
             try:
+                I0, c0 = ordeval.run_fragment(prelude, env, hooks, check_axes=True)
+                if c0 is not None:
+                    raise AnalysisError('C03.a: the traversal leaves before its loop for a well-formed query')
                 I, ctl = ordeval.run_fragment(loop.body, env, hooks, check_axes=True)
             except ordeval.AxisMismatch as e:
                 R.bad('C03.a', trav, e.node, f'comparison mixes dimensions: {e.a.name} with {e.b.name}')
@@ -275,10 +282,19 @@ def leaf_level(P, R, m, trav, dims, kind):
                     continue        # rows of a covered node are covered or NaN (C03.a + C03.d)
                 total += 1
                 hooks, emitted = make_hooks(P, m, b)
-                env = {'self': OPQ, qparam: q, 'n': n}
-                for t in (loop.target.elts if isinstance(loop.target, ast.Tuple) else [loop.target]):
-                    env[t.id] = OPQ
+                env = {'self': OPQ, qparam: q}
+                prelude = []
+                for st in m.node.body:
+                    if any(st is l_ for l_, _ in emit_loops):
+                        break
+                    prelude.append(st)
                 try:
+                    I0, c0 = ordeval.run_fragment(prelude, env, hooks)
+                    if c0 is not None:
+                        raise AnalysisError(f'C03.b: {m.qualname} leaves before its emitting loops for a non-empty index')
+                    emitted.clear()
+                    for t in (loop.target.elts if isinstance(loop.target, ast.Tuple) else [loop.target]):
+                        env[t.id] = OPQ
                     I, ctl = ordeval.run_fragment(loop.body, env, hooks)
                 except ordeval.AxisMismatch as e:
                     R.bad('C03.b', m, e.node, f'comparison mixes dimensions: {e.a.name} with {e.b.name}')
